@@ -267,12 +267,21 @@ def _verdict(a, prop, mod, plan, results, inconclusive, extras, workers, t0):
             else:
                 merged_extra[k] = v
 
-    # replay files for new violations
+    # replay files for new violations: one witness per mechanism first, then the rest
     replays = []
     if viol_new:
+        seen, first, rest = set(), [], []
+        for r in viol_new:
+            ms = [v["mech"] for v in r["violations"] if v["mech"] not in known]
+            if ms and ms[0] not in seen:
+                seen.add(ms[0])
+                first.append(r)
+            else:
+                rest.append(r)
+        viol_new = first + rest
         rdir = os.path.join(EVID, "replays", prop)
         os.makedirs(rdir, exist_ok=True)
-        for r in viol_new[:10]:
+        for r in viol_new[:12]:
             path = os.path.join(rdir, r["digest"] + ".json")
             with open(path, "w") as f:
                 json.dump({
